@@ -86,6 +86,9 @@ func (c *SimClock) CanTick(tk *SimTicker) bool {
 	if len(tk.C) != 0 {
 		return false
 	}
+	if c.R != nil && c.R.Sleepers.Load() > 0 {
+		return false // see Run.sleepIn
+	}
 	if tk.Owner != nil && c.R.BGParkedIn(tk.Owner, tk.OwnerLen) {
 		return false
 	}
